@@ -141,9 +141,10 @@ def candidates(F, policy, baseline):
             continue
         if b.hash in ch or len(b.blocks) > MAX_BLOCKS or _directly_recursive(b):
             continue
-        if any(c is not None and c.best_hash in ch for bi, c, t in b.calls()):
-            # a checked / convenience wrapper directly around a case constructor is an anchor with rules of its own (what it validates,
-            # what it refuses): folding it into its callers would hide it from those rules
+        if baseline is not None and b.path in baseline and b.name.startswith('new_') and any(c is not None and c.best_hash in ch and c.name.startswith('new_') for bi, c, t in b.calls()):
+            # a checked / convenience wrapper of the pinned tree directly around a case constructor (new_with_assertions, ..) is an anchor
+            # with rules of its own (what it validates, what it refuses): folding it into its callers would hide it from those rules.
+            # Helpers a later edit introduces are not in the baseline list and are always folded.
             continue
         if policy == 'new-helpers' and (baseline is None or b.path in baseline):
             continue
